@@ -108,6 +108,8 @@ class RefModel:
                     else:
                         r = value(e["s"])
                     v, m = r if isinstance(r, tuple) else (r, abs(r))
+                    if e.get("et"):
+                        v, m = self._edge_operator(ei, e, v, m, params)
                     w = float(params.get(f"edge{ei}/weight", e["w"]))
                     tot += w * v
                     mag += abs(w) * m
@@ -140,6 +142,26 @@ class RefModel:
 
         value.eval_eq = eval_eq
         return value
+
+    def _edge_operator(self, ei, e, v, m, params):
+        """edge through an EdgeTemplate with ONE algebraic operator: the source value enters the operator's input variable,
+        its output (times the weight) reaches the target.  Values: operator defaults <- template-level variations <-
+        the edge's attribute dictionary ('op/var')."""
+        et = (self.spec.get("etypes") or {})[e["et"]]
+        o = et["ops"][0]
+        od = self.ops[o]
+        env = {}
+        for vname, kind, val in od["vars"]:
+            if kind == "input":
+                env[vname] = v
+            elif kind == "const":
+                val = (et.get("ov") or {}).get(o, {}).get(vname, val)
+                val = (e.get("ev") or {}).get(f"{o}/{vname}", val)
+                env[vname] = float(params.get(f"edge{ei}/{o}/{vname}", val))
+        (lhs, de, ast, *_), = od["eqs"]
+        with np.errstate(all="ignore"):
+            out, mag = E.evaluate_mag(ast, env)
+        return float(out), float(max(mag, abs(out)))
 
     def vf(self, y, params=None, t=0.0, edge_src=None, ext=None, hist=None):
         """dict state path -> (derivative, magnitude bound)."""
